@@ -6,10 +6,21 @@ V = os.path.dirname(os.path.dirname(os.path.abspath(__file__)))
 NOTE = ("Trusted base: Go runtime and testing/synctest (virtual clock, quiescence), the harness (plan generator, simulated receiver "
         "world, gossip transport, disk, reference models), one shared clock per run. Sampling, not enumeration, unless stated.")
 
+SIM = "deterministic simulation: whole real app.New instance in a testing/synctest bubble (virtual clock), simulated receivers/disk, seeded plan generator with fault injection, reference-model oracles over the recorded history, delta-debugging shrinker, replay twice before reporting"
 CLAIMED = {
+ "C01": dict(category="exploration", ref="5 (C01)", technique=SIM + "; oracle O1 (latest delivered notification lists every eligible alert) in clean windows",
+   text="Seeded search over routing trees, alert timelines, silences, inhibit rules, time intervals, receiver fault windows (5xx/4xx/hang/reset/slow), valid and rejected reloads and scheduling holds; the oracle asserts, for every alert that the reference models say was eligible for longer than max(group_wait,group_interval)+flush timeout+6s with a healthy integration, that the latest delivered notification for its group lists it as firing. Sampling of a huge space is the honest level; every reported failure is minimised and replayed."),
+ "C04": dict(category="exploration", ref="5 (C04)", technique=SIM + "; per (group, integration) notification sequences over virtual hours to days",
+   text="Runs cover 2-30 virtual hours so that several repeat_intervals, nflog GC runs, snapshots, reloads and graceful restarts occur; every notification attempt must be justified against the previous delivered one (new firing alert, new resolved alert with send_resolved, repeat_interval elapsed, or a moment without a firing unsuppressed alert), resolved-only notifications must follow a firing one, and an unchanged healthy group must be re-notified within repeat_interval+group_interval+slack."),
+ "C05": dict(category="exploration", ref="5 (C05)", technique=SIM + "; resolves/flaps placed inside in-flight deliveries (slow/hanging receivers, hold before the delete of resolved alerts)",
+   text="Checks that a resolution is reported within group_interval+slack when its premises hold, that send_resolved:false never lists resolved alerts, that nothing is listed resolved while it fired during the whole possible flush window (or firing while resolved), that resolved-only first notifications do not occur, and that re-fired alerts are listed again (O1)."),
+ "C06": dict(category="exploration", ref="5 (C06)", technique=SIM + "; 2-8 ingestion workers with holds in the group creation loop, maintenance sweep and flush; GET /alerts/groups probes",
+   text="Every notification must be one group of one route of the reference router, complete with respect to members eligible during the whole flush window; group keys must be a stable function of (matcher path, group labels); GET /alerts/groups must show the model's partition; new and recreated groups must wait group_wait."),
  "C14": dict(category="fault_enumeration", ref="5 (C14)",
    technique="deterministic simulation: whole app in a synctest bubble; complete enumeration of ingestion-worker release orders via content-keyed holds at a yield point",
    text="Every release order of the ingestion workers for bursts of 2 and 3 back-to-back updates (all refresh/resolve/re-fire sequences, 2/3/4/8 workers) is executed against the real app (API -> provider -> dispatcher -> group -> webhook); sampled beyond (k=4..5, creation inside the burst). The oracle compares the group's copy (GET /alerts/groups updatedAt) and the following notifications with the last accepted submission. Enumeration is the right level: the schedule space at the one place where order can be lost is small and finite."),
+ "C20": dict(category="exploration", ref="5 (C20)", technique=SIM + "; per-attempt outcome windows, flush reconstruction from the backoff schedule, notification-log dumps, payload laws",
+   text="Every run injects receiver faults; oracles: recoverable failures are retried within the backoff cap unless the flush deadline intervenes, unrecoverable ones are not retried before the next tick, failed flushes with something new to say are attempted again, resolved alerts survive a failed flush, log entries with firing alerts have a preceding 2xx, siblings of a failing integration still obey dedup and O1, payload status/common labels/annotations/max_alerts/truncatedAlerts laws hold on every request."),
 }
 
 NA = {
